@@ -25,3 +25,37 @@ pub broadcast axiom fn axiom_json_eq_null(a: JsonValue)
 pub broadcast axiom fn axiom_json_eq_string(a: JsonValue, s: String)
     ensures #[trigger] json_eq(a, JsonValue::String(s)) == (a == JsonValue::String(s));
 pub broadcast group group_json_eq { axiom_json_eq_bool, axiom_json_eq_null, axiom_json_eq_string }
+
+// ---- naming collection values by their content (trusted: Vec / IndexMap are determined by their elements) ----
+pub uninterp spec fn json_array(s: Seq<JsonValue>) -> JsonValue;
+pub uninterp spec fn json_object(e: Seq<(String, JsonValue)>) -> JsonValue;
+pub broadcast axiom fn axiom_json_array(v: Vec<JsonValue>)
+    ensures JsonValue::Array(v) == #[trigger] json_array(v@);
+pub broadcast axiom fn axiom_json_object(m: IndexMap<String, JsonValue>)
+    ensures JsonValue::Object(m) == #[trigger] json_object(m.entries());
+pub broadcast group group_json_names { axiom_json_array, axiom_json_object }
+
+// the real conversions src/json_value.rs: impl From<Vec<JsonValue>> / From<IndexMap<..>> for JsonValue
+// (the spec side of vstd's From/Into specification; the bodies below are verified against it)
+impl vstd::std_specs::convert::FromSpecImpl<Vec<JsonValue>> for JsonValue {
+    open spec fn obeys_from_spec() -> bool { true }
+    open spec fn from_spec(v: Vec<JsonValue>) -> Self { JsonValue::Array(v) }
+}
+impl vstd::std_specs::convert::FromSpecImpl<IndexMap<String, JsonValue>> for JsonValue {
+    open spec fn obeys_from_spec() -> bool { true }
+    open spec fn from_spec(v: IndexMap<String, JsonValue>) -> Self { JsonValue::Object(v) }
+}
+impl From<Vec<JsonValue>> for JsonValue {
+//@@ fn jv.from_vec = src/json_value.rs :: impl From<Vec<JsonValue>> for JsonValue :: fn from
+//@@ ret r
+//@@ header
+        ensures r == JsonValue::Array(value),
+//@@ endfn
+}
+impl From<IndexMap<String, JsonValue>> for JsonValue {
+//@@ fn jv.from_map = src/json_value.rs :: impl From<IndexMap<String, JsonValue>> for JsonValue :: fn from
+//@@ ret r
+//@@ header
+        ensures r == JsonValue::Object(value),
+//@@ endfn
+}
